@@ -66,6 +66,14 @@ CHECKS = {
             'compared exhaustively with unicodedata for all 0x110000 code points. Held on the histories executed, not a proof.',
             'Trusted: the bitmask model, CPython unicodedata; \\i/\\c only on the BMP; block ranges only checked for disjointness.',
             'DESIGN.md section 4 (C13)'),
+    'C15': ('exploration',
+            'runtime shadow-model monitor over operation histories: pool of live map/array values paired with dict/list models, immutability re-check after every step',
+            'Random histories of map:* / array:* functions, constructors and ? lookups are applied to a pool of live XPathMap/XPathArray '
+            'values held as context variables; after every step the result is compared with a dict/list reference model (value, error '
+            'code, key identity by op:same-key) and EVERY value already in the pool is re-described and compared with its recorded '
+            'model, so an operand modified in place is seen on the very next step.',
+            'Trusted: rv/models/maparray.py (F&O 3.1 section 17); order of map:keys/for-each results compared as bags; array:sort and collations left to C16.',
+            'DESIGN.md section 4 (C15)'),
 }
 
 PENDING_REASON = 'check not built yet in this session (runtime-monitoring design exists in DESIGN.md section 4); not claimed until its monitor runs clean'
